@@ -459,9 +459,29 @@ func runCapabilities(c *mc.Ctx, r *mc.Result) {
 			if bi == 2 && (code-100)%37 != 0 {
 				continue
 			}
-			for _, helper := range []string{"String", "Blob", "Stream", "Blob+preset", "Stream+preset", "String+after204", "Blob+after204", "Stream+after304"} {
+			for hi, helper := range []string{"String", "Blob", "Stream", "Blob+preset", "Stream+preset", "String+after204", "Blob+after204", "Stream+after304",
+				"String", "Blob", "Stream", "String", "Blob", "Stream"} {
 				rw := fx.NewRW()
-				ctx := fox.NewTestContextOnly(rw, fx.Req("GET", "", "/"))
+				var ctx fox.Context = fox.NewTestContextOnly(rw, fx.Req("GET", "", "/"))
+				// the helpers address the Context's current writer: the one installed with SetWriter (entries
+				// 8..10), or the one a CloneWith copy was given (entries 11..13); the first writer sees nothing
+				var unused *fx.RW
+				if hi >= 8 {
+					if bi == 2 {
+						continue
+					}
+					first := rw
+					unused = first
+					rw = fx.NewRW()
+					other := fox.NewTestContextOnly(rw, fx.Req("GET", "", "/"))
+					if hi < 11 {
+						ctx.SetWriter(wrapWriter{other.Writer()})
+						helper += " after SetWriter"
+					} else {
+						ctx = ctx.CloneWith(other.Writer(), fx.Req("GET", "", "/"))
+						helper += " on a CloneWith copy"
+					}
+				}
 				var err error
 				first := 0
 				if i := strings.Index(helper, "+after"); i >= 0 {
@@ -479,16 +499,26 @@ func runCapabilities(c *mc.Ctx, r *mc.Result) {
 					ctx.SetHeader("Content-Type", "application/json")
 					helper = strings.TrimSuffix(helper, "+preset")
 				}
-				switch helper {
-				case "String":
-					err = ctx.String(code, "%s", body)
-					wantCT = fox.MIMETextPlainCharsetUTF8
-				case "Blob":
-					err = ctx.Blob(code, wantCT, []byte(body))
-				case "Stream":
-					err = ctx.Stream(code, wantCT, strings.NewReader(body))
-				}
+				func() {
+					defer func() {
+						if pv := recover(); pv != nil {
+							err = fmt.Errorf("panic: %v", pv)
+						}
+					}()
+					switch strings.Fields(helper)[0] {
+					case "String":
+						err = ctx.String(code, "%s", body)
+						wantCT = fox.MIMETextPlainCharsetUTF8
+					case "Blob":
+						err = ctx.Blob(code, wantCT, []byte(body))
+					case "Stream":
+						err = ctx.Stream(code, wantCT, strings.NewReader(body))
+					}
+				}()
 				r.Evaluations++
+				if unused != nil && (unused.Calls != 0 || unused.Code != 0 || len(unused.Body) != 0) {
+					r.Violate("capabilities", "helper", fmt.Sprintf("%s (%d): the writer the Context no longer uses received status=%d, %d body bytes", helper, code, unused.Code, len(unused.Body)), helper)
+				}
 				informational := code < 200 && code != 101
 				if informational {
 					continue // the status of an informational code followed by a body is the implicit 200
@@ -583,6 +613,9 @@ type capFlushBoth struct{ capBase }
 
 func (w *capFlushBoth) Flush()            { w.log("Flush") }
 func (w *capFlushBoth) FlushError() error { w.log("FlushError"); return errMarker }
+
+// wrapWriter is a user's ResponseWriter around the recorder (what SetWriter is for).
+type wrapWriter struct{ fox.ResponseWriter }
 
 func init() {
 	mc.Register(&mc.Check{
